@@ -5,6 +5,8 @@ import (
 	"fmt"
 	"sort"
 	"strconv"
+	"strings"
+	"time"
 
 	"verifsim/engine"
 	"verifsim/service"
@@ -304,6 +306,16 @@ func (c *C20) Run(x *engine.Ctx) *engine.Violation {
 	if t.Chance(1, 2) {
 		w.PrioScrape = 1 + t.Draw(4)
 	}
+	// swarm knob: in a third of the runs every configuration field of server.Config the harness does not know
+	// by name (a timeout, a limit, a switch - whatever the tree offers today) gets a drawn value, and the clock
+	// jumps once while work is in progress so that a timeout among them can fire; the conservation law is
+	// stated over the responses actually sent, so it holds under every supported configuration
+	if t.Chance(1, 3) {
+		for i := 0; i < 6; i++ {
+			w.Knobs = append(w.Knobs, t.Weighted(3, 1, 1, 1, 1))
+		}
+		w.TimeJumps = append(w.TimeJumps, service.TimeJump{Step: 60 + t.Draw(300), D: []time.Duration{2 * time.Second, 12 * time.Second, time.Minute}[t.Pick(3)]})
+	}
 	if t.Chance(1, 5) {
 		w.Cycles = 2 // a restart on the same addresses: every Run has its own registry and counts from zero
 		x.S.Count("probe:runs_with_restart")
@@ -334,8 +346,14 @@ func (c *C20) Run(x *engine.Ctx) *engine.Violation {
 	if w.Stuck {
 		return engine.Violatef("C20/run-does-not-complete", "%s after %d steps", w.StuckWhy, sim.Step)
 	}
+	if len(w.KnobLog) > 0 {
+		x.S.Count("probe:runs_with_configuration_knobs_set")
+	}
 	for cyc := 0; cyc < w.Cycles; cyc++ {
 		if v := c.judgeCycle(x, sim, w, cyc); v != nil {
+			if len(w.KnobLog) > 0 {
+				v.Detail += " [server.Config knobs set by the harness: " + strings.Join(w.KnobLog, ", ") + "]"
+			}
 			return v
 		}
 	}
